@@ -546,6 +546,26 @@ fn make_probes_reduced(seed: u64, reqs: &[Req], positions_full: &[usize], multi_
                 group: "non-selected-copy",
             });
         }
+        // a wrong character that is a letter but not a hexadecimal digit (the correct signature never has one there, yet a
+        // guess may): letter positions near the start, the middle and the end
+        {
+            let letters: Vec<usize> = (0..64).filter(|p| q.sig.as_bytes()[*p].is_ascii_lowercase()).collect();
+            if letters.len() >= 3 {
+                for (n, &p) in [letters[0], letters[letters.len() / 2], letters[letters.len() - 1]].iter().enumerate() {
+                    let mut sgn = q.sig.clone().into_bytes();
+                    sgn[p] = [b'g', b'x', b'z'][n];
+                    v.push(Probe {
+                        request: k,
+                        label: format!("wrong-at-{}+non-hex-letter", p),
+                        presented: String::from_utf8(sgn).unwrap(),
+                        mode: Mode::Validate,
+                        first_wrong: p,
+                        log_trace: false,
+                        group: "non-hex-letter",
+                    });
+                }
+            }
+        }
         // the same position probes once more with a logger installed and the level at Trace: log macros then
         // evaluate their arguments, and that work must be position-independent as well
         let twins: Vec<Probe> = v
@@ -725,7 +745,7 @@ fn analyse(reqs: &[Req], probes: &[Probe], traces: &[Trace], profile: &str) -> S
         let mut differing: Vec<(usize, Trace)> = Vec::new();
         let mut wrong: Vec<usize> = Vec::new();
         let mut base = traces[mine[0]];
-        for gname in ["lower", "lower+trace-logging", "upper-case", "one-upper-case-letter", "non-selected-copy"] {
+        for gname in ["lower", "lower+trace-logging", "upper-case", "one-upper-case-letter", "non-selected-copy", "non-hex-letter"] {
             let group: Vec<usize> = mine.iter().copied().filter(|i| probes[*i].mode == Mode::Validate && probes[*i].first_wrong < 64 && probes[*i].group == gname).collect();
             if group.is_empty() {
                 continue;
@@ -745,6 +765,7 @@ fn analyse(reqs: &[Req], probes: &[Probe], traces: &[Trace], profile: &str) -> S
                     "lower" => "wrong_signature_traces_compared",
                     "lower+trace-logging" => "wrong_signature_traces_compared_with_trace_logging",
                     "non-selected-copy" => "wrong_signature_traces_compared_in_a_non_selected_copy",
+                    "non-hex-letter" => "wrong_signature_traces_compared_with_a_non_hex_letter",
                     _ => "wrong_signature_traces_compared_in_other_hex_case",
                 },
                 group.len() as u64,
@@ -817,7 +838,7 @@ fn main() {
             // unoptimised builds take ~10× the steps: keep the plain group and the controls, and a thin slice of the logging
             // and upper-case groups (positions 0 and 63) — a branch that only exists with a logger installed, or only for
             // upper-case input, stays a branch at opt-level 0
-            probes.retain(|p| (p.group == "lower" && !p.log_trace) || p.group == "non-selected-copy" || (p.request == 0 && (p.label.starts_with("wrong-at-0+") || p.label.starts_with("wrong-at-63+"))));
+            probes.retain(|p| (p.group == "lower" && !p.log_trace) || p.group == "non-selected-copy" || p.group == "non-hex-letter" || (p.request == 0 && (p.label.starts_with("wrong-at-0+") || p.label.starts_with("wrong-at-63+"))));
         }
         let workers = probes.len().clamp(8, 26);
         let traces = trace_all(seed, &reqs, &probes, workers);
@@ -956,6 +977,7 @@ fn main() {
     let thin = nreq - full;
     ctx.gate("wrong-signature traces compared", tally.get("wrong_signature_traces_compared"), (full * (positions.len() + 1 + multi) + thin * 4) as u64);
     ctx.gate("wrong-signature traces compared with the guess in a non-selected copy (later X-Amz-Signature parameter, second Authorization header)", tally.get("wrong_signature_traces_compared_in_a_non_selected_copy"), (reqs.len() * 3) as u64);
+    ctx.gate("wrong-signature traces compared with a non-hexadecimal letter (g, x, z) at a letter position near the start / middle / end", tally.get("wrong_signature_traces_compared_with_a_non_hex_letter"), (reqs.len() * 3) as u64);
     ctx.gate("wrong-signature traces compared in upper case / with one upper-case letter", tally.get("wrong_signature_traces_compared_in_other_hex_case"), (full * positions.len() * 2) as u64);
     ctx.gate("wrong-signature traces compared with a trace-level logger installed", tally.get("wrong_signature_traces_compared_with_trace_logging"), (full * (positions.len() + 1)) as u64);
     ctx.gate("requests whose wrong-signature probes were all refused and whose correct signature was accepted", tally.get("requests_whose_probes_ended_as_their_signature_demands"), nreq as u64);
@@ -967,7 +989,7 @@ fn main() {
     ctx.exhaustive("first-difference positions 0–63 for each traced request", tier == Tier::Thorough);
     let rep = Report {
         level: "exploration",
-        rule: "Instruction-trace monitor: the process warms all lazily initialised globals, then forks one child per probe; the child builds its request, raises SIGSTOP, performs the single validation call, raises SIGSTOP again; the parent single-steps the child between the two stops with ptrace and folds every instruction address into (step count, 64-bit FNV hash). All children are forks of one warmed single-threaded parent (same layout, allocator state, hash seeds); request shapes: both carriers, canonical spelling and other clients' spellings (letter case, needless escapes, parameter order; timestamps with a local offset or in the extended format with a fraction), with and without a session token (temporary-credential access keys), S3 mode, folded form POST, both options, services with signed-header requirements, a skewed server clock and a richer provider identity on every other request, two keys; probes differ only in the signature text: first wrong character at each probed position (digit for digit, letter for letter), all characters wrong, random multi-position variants; every position probe is repeated with a trace-level logger installed (log-macro arguments are then evaluated), with the whole signature in upper case, and with one far-away letter in upper case; positions 0 / 31 / 63 once more with the guess in a copy of the signature that is not the selected one (a later X-Amz-Signature parameter, a second Authorization header) while the selected copy is wrong throughout. Verdict: identical (count, hash) for all refusals of one request within each of these five groups. The plain group (5 positions, all-wrong, 3 multi-position variants) is traced again on an unoptimised build of crate and harness (profile `unopt`, opt-level 0; ≈ 770 000 steps per trace), where a data-dependent branch in the source cannot be turned into branch-free code by the optimiser; thorough also repeats a subset on the `checked` profile. Every wrong-signature probe must end refused and the correct signature accepted (child exit status), else the run is inconclusive. Controls: same probe twice ⇒ same trace; a harness-local `==` over the same inputs must show position-dependent lengths (proves the byte-wise memcmp/bcmp override is effective). Distinct = distinct (request, wrong signature) traces compared.".into(),
+        rule: "Instruction-trace monitor: the process warms all lazily initialised globals, then forks one child per probe; the child builds its request, raises SIGSTOP, performs the single validation call, raises SIGSTOP again; the parent single-steps the child between the two stops with ptrace and folds every instruction address into (step count, 64-bit FNV hash). All children are forks of one warmed single-threaded parent (same layout, allocator state, hash seeds); request shapes: both carriers, canonical spelling and other clients' spellings (letter case, needless escapes, parameter order; timestamps with a local offset or in the extended format with a fraction), with and without a session token (temporary-credential access keys), S3 mode, folded form POST, both options, services with signed-header requirements, a skewed server clock and a richer provider identity on every other request, two keys; probes differ only in the signature text: first wrong character at each probed position (digit for digit, letter for letter), all characters wrong, random multi-position variants; every position probe is repeated with a trace-level logger installed (log-macro arguments are then evaluated), with the whole signature in upper case, and with one far-away letter in upper case; positions 0 / 31 / 63 once more with the guess in a copy of the signature that is not the selected one (a later X-Amz-Signature parameter, a second Authorization header) while the selected copy is wrong throughout; and three letter positions with a letter that is not a hexadecimal digit (g, x, z). Verdict: identical (count, hash) for all refusals of one request within each of these six groups. The plain group (5 positions, all-wrong, 3 multi-position variants) is traced again on an unoptimised build of crate and harness (profile `unopt`, opt-level 0; ≈ 770 000 steps per trace), where a data-dependent branch in the source cannot be turned into branch-free code by the optimiser; thorough also repeats a subset on the `checked` profile. Every wrong-signature probe must end refused and the correct signature accepted (child exit status), else the run is inconclusive. Controls: same probe twice ⇒ same trace; a harness-local `==` over the same inputs must show position-dependent lengths (proves the byte-wise memcmp/bcmp override is effective). Distinct = distinct (request, wrong signature) traces compared.".into(),
         assumptions: vec![
             "decides the property as stated (instruction sequence), not micro-architectural timing".into(),
             "the success path (correct signature) is traced but excluded from the comparison".into(),
